@@ -27,6 +27,12 @@ class FakeObject:
     def __init__(self, ifaces):
         self._ifaces = ifaces
 
+    # exported objects are ordinary Python objects: a collection-like one may well be empty (falsy) while it is exported
+    _empty_container = False
+
+    def __len__(self):
+        return 0 if self._empty_container else 1
+
     def getInterfaces(self):
         return list(self._ifaces)
 
@@ -115,7 +121,9 @@ def roundtrip_case(rnd, pool, n_if):
 
 def roundtrip_check(built, names):
     from txdbus import introspection, interface, objects
-    xml = introspection.generateIntrospectionXML('/obj', {'/obj': FakeObject([b[0] for b in built])})
+    fo = FakeObject([b[0] for b in built])
+    fo._empty_container = (len(names) + sum(len(d['methods']) for _i, d in built)) % 3 == 0
+    xml = introspection.generateIntrospectionXML('/obj', {'/obj': fo})
     if xml is None:
         return 'no XML generated for an exported object'
     try:
@@ -184,6 +192,20 @@ def reuse_case():
         b = [i for i in introspection.getInterfacesFromXML(xml, True) if i.name == name]
         if len(b) != 1 or b[0] is known or 'New' not in b[0].methods:
             return 'replacement requested but the parsed definition is %r' % (b and sorted(b[0].methods))
+        # an interface known locally WITHOUT any member (a marker interface) is known all the same
+        mname = 'org.verif.Marker'
+        marker = interface.DBusInterface(mname)
+        try:
+            remote = interface.DBusInterface(mname, interface.Method('Extra', arguments='s'), noRegister=True)
+            xml = introspection.generateIntrospectionXML('/obj', {'/obj': FakeObject([remote])})
+            a = [i for i in introspection.getInterfacesFromXML(xml, False) if i.name == mname]
+            if len(a) != 1 or a[0] is not marker:
+                return 'a locally known interface without members was not reused although replacement was not requested: %r' % (a and sorted(a[0].methods),)
+            b = [i for i in introspection.getInterfacesFromXML(xml, True) if i.name == mname]
+            if len(b) != 1 or b[0] is marker or 'Extra' not in b[0].methods:
+                return 'replacement of a member-less known interface requested, parsed definition %r' % (b and sorted(b[0].methods),)
+        finally:
+            interface.DBusInterface.knownInterfaces.pop(mname, None)
         # a document with several interfaces, the known one first / in the middle: the others are still parsed
         for order in ((0, 1, 2), (1, 0, 2), (1, 2, 0)):
             extra = [interface.DBusInterface('org.verif.Fresh%d' % k, interface.Method('F%d' % k, arguments='i'), noRegister=True) for k in (1, 2)]
